@@ -150,6 +150,9 @@ def _build_block(desc, b, built, shared=None):
         return sp.Repeat(build_block(desc, b["b"], built, shared), cs)
     if k == "merge":
         al = ALIGNS[b["align"]] if b.get("align") else None
+        if b.get("defaults"):
+            # the library's own defaults for mode and alignment (what `Merge([b])` in the documentation means)
+            return sp.Merge([build_block(desc, x, built, shared) for x in b["bs"]], cs)
         return sp.Merge([build_block(desc, x, built, shared) for x in b["bs"]], cs, mode=MODES[b["mode"]], alignment=al)
     if k == "nest":
         al = ALIGNS[b["align"]] if b.get("align") else None
